@@ -392,10 +392,11 @@ def validate (a : Args) : Option String := do
         else !(fails.any fun (i, n, _) => i == idx && n == v.name)
       dynErr := fun v _ _ idx => match fails.find? (fun (i, n, _) => i == idx && n == v.name) with | some (_, _, d) => d | none => ""
       fix := fun v g => if v.name == "GeomTypeValidator" then (if g == 0 || g == 1 then some g else if g == 3 then some 0 else none) else none }
-  let cfg : Tval.Cfg := ⟨allowFix, Spec.majorErrors, Spec.majorValidators, Spec.allValidators, chosen⟩
+  let cfg : Tval.Cfg := ⟨allowFix, Spec.majorErrors, Spec.majorValidators, Spec.allValidators, chosen, Spec.emptyAreaError⟩
   let (out, glob') := Tval.run O cfg allowEmpty areaEmpty kinds glob
   some (match out with
     | .untouched => s!"outcome=untouched glob={enc glob'}"
+    | .emptyArea rows => s!"outcome=emptyarea glob={enc glob'} rows={"|".intercalate (rows.map fun (g, es) => s!"{g}:{";".intercalate (es.map enc)}")}"
     | .validated rows => s!"outcome=validated glob={enc glob'} rows={"|".intercalate (rows.map fun (g, es) => s!"{g}:{";".intercalate (es.map enc)}")}")
 
 end Cmd
